@@ -4,7 +4,7 @@
 //   PAIR <id> <R|S> <route> | <route>
 //   LIST <id> <R|S> <route> | <route> | ...
 // route = dop ibgp local_asn bgp_id peer origin path local_pref med originator cluster_len rest
-//         ("-" = absent; peer = 4:<u32> or 6:<u128>; path = "-" absent, "e" empty, or tokens a<asn> / s / o joined by '.')
+//         ("-" = absent; peer = 4:<u32> or 6:<u128>; path = "-" absent, "e" empty, or tokens a<asn> / s (AS_SET) / o (AS_CONFED_SEQUENCE) / c (AS_CONFED_SET) joined by '.')
 use std::borrow::Borrow;
 use std::cmp::Ordering;
 use std::io::Write;
@@ -50,6 +50,7 @@ pub fn parse_route(s: &str) -> R {
             for t in f[6].split('.') {
                 if let Some(a) = t.strip_prefix('a') { hp.append(Asn::from_u32(a.parse().unwrap())); }
                 else if t == "s" { hp.append_set([Asn::from_u32(64496), Asn::from_u32(64497)]); }
+                else if t == "c" { hp.append_confed_set([Asn::from_u32(64499), Asn::from_u32(64500)]); }
                 else { hp.append_confed_sequence([Asn::from_u32(64498)]); }
             }
         }
